@@ -225,6 +225,38 @@ pub fn run(cfg: &Cfg, rep: &mut Report) {
         };
         one(rep, op, kind, ar, ac, br, bc, salt);
     });
+    // every compatible class at larger shapes: all row widths that are multiples of the unroll width
+    // (8..=40), sizes on both sides of 1024 elements, both operand orders, all four operators
+    if !cfg.miri() {
+        let large: Vec<(usize, usize)> = vec![(5, 8), (3, 16), (7, 24), (2, 32), (9, 40), (32, 32), (40, 40), (40, 30), (26, 40), (33, 31), (40, 25), (64, 17), (17, 64), (128, 9)];
+        par_cases(cfg, rep, 3, large.len(), |i, rng, rep| {
+            let (r, c) = large[i];
+            let pairs = [
+                ((r, c), (r, c)),
+                ((r, 1), (r, c)),
+                ((r, c), (r, 1)),
+                ((1, c), (r, c)),
+                ((r, c), (1, c)),
+                ((1, 1), (r, c)),
+                ((r, c), (1, 1)),
+                ((r, 1), (1, c)),
+                ((1, c), (r, 1)),
+            ];
+            for &((ar, ac), (br, bc)) in &pairs {
+                for &op in &OPS {
+                    let f = rng.usize(0, 3) as u8;
+                    let salt = rng.usize(0, 1000) as f64 * 0.125;
+                    one(rep, op, Kind::MM(f), ar, ac, br, bc, salt);
+                    if br == 1 {
+                        one(rep, op, Kind::MV(f), ar, ac, br, bc, salt);
+                    }
+                    if ar == 1 {
+                        one(rep, op, Kind::VM(f), ar, ac, br, bc, salt);
+                    }
+                }
+            }
+        });
+    }
     for k in ["MM", "MV", "VM"] {
         for cls in ["same", "scalar", "incompatible", "col-stretch", "row-stretch"] {
             if (k == "MV" || k == "VM") && cls == "col-stretch" {
